@@ -365,13 +365,55 @@ def cross_contract(run):
                               f"{brief(b[t])} ({[m for _, m in o.warnings][:1]})", {"ident": ident})
 
 
+def _path_hist(job):
+    import logging
+
+    from lib import pathcheck
+
+    logging.disable(logging.WARNING)
+    seed, steps = job
+    h = pathcheck.Hist(seed, steps)
+    pr = h.run()
+    return seed, steps, pr, h.ops, h.queries
+
+
+def path_discipline(run):
+    """the real Path class under operation histories (lib/pathcheck.py): solver mirror, conditions, no leak into a
+    finished parent"""
+    n, steps = (48, 40) if run.tier == "quick" else (900, 60)
+    jobs = [(f"c20-path-{run.seed}-{i}", steps) for i in range(n)]
+    seen = set()
+    nq = 0
+    for res in common.parallel_map(_path_hist, jobs, 8):
+        if isinstance(res, tuple) and res and res[0] == "error":
+            run.harness_error("path-discipline worker crashed: " + res[1].strip().splitlines()[-1])
+            continue
+        seed, st, problems, ops, q = res
+        nq += q
+        real = [p for p in problems if p["kind"] != "unknown"]
+        if not problems:
+            run.ok("path-discipline", seed)
+        elif not real:
+            run.inconc("path-discipline", seed, "equivalence query undecided: " + problems[0]["detail"][:200])
+        else:
+            p0 = real[0]
+            key = f"path/{p0['kind']}/{p0['what']}"
+            if key in seen:
+                continue
+            seen.add(key)
+            run.violation("path-discipline", key, f"history {seed} step {p0['step']} ({p0['what']}): {p0['detail'][:600]}",
+                          {"seed": seed, "steps": st, "step": p0["step"], "ops": [list(o) for o in ops[: p0["step"] + 8]]})
+    run.extra["path_discipline"] = {"histories": n, "steps": steps, "equivalence_queries": nq}
+
+
 def main(run: common.Run):
     tier = run.tier
     n = 2 if tier == "quick" else 40
     run.bounds = {"handmade_contracts": 6, "generated_contracts": n, "tests_per_contract": "2..4", "orders": "all permutations (<= 3 tests) / every 4th",
                   "uid_stubs": ["const", "counter"], "solver_cap_s": 20 if tier == "quick" else 60}
     run.functions_encoded = ["halmos.__main__.run_contract / run_tests / run_test / run_message", "halmos.sevm.Path.extend_path / branch",
-                             "halmos.sevm.KeccakRegistry.copy", "halmos.sevm.Exec (setup_ex reuse)", "halmos.utils.uid", "halmos.mapper.BuildOut"]
+                             "halmos.sevm.KeccakRegistry.copy", "halmos.sevm.Exec (setup_ex reuse)", "halmos.utils.uid", "halmos.mapper.BuildOut",
+                             "halmos.sevm.Path.branch / activate / append / extend_path / slice (operation histories)"]
     run.assumptions = ["'alone' = the only selected test of a run_contract call in the same process"]
     items = [(nm, sp, oth, tier) for nm, sp, oth in handmade()]
     for k in range(n):
@@ -387,6 +429,7 @@ def main(run: common.Run):
         for k, v in res[1].items():
             total[k] = total.get(k, 0) + v
     cross_contract(run)
+    path_discipline(run)
     run.extra.update(total)
     run.extra["rule"] = "one obligation per (test, run variant): equality of observable results; plus one solver-decided path-set equivalence per (regular test, order/uid variant)"
 
